@@ -79,7 +79,10 @@ def reader_grammar(F, rep):
             exact = rx.get("k") == "MethodCall" and rx["method"] == "read_exact" and L.local_name(rx["args"][0]) == bufname
             tail = L.strip_try(val["tail"])
             conv = tail.get("k") == "Call" and (declared(tail) or "").endswith("::Ok") and "String::from_utf8(%s)?" % bufname in tir.pretty(tail)
-            ok = l0.get("method") == "read_u8" and sized and exact and conv
+            # the bytes read are the bytes converted: nothing else may touch the buffer in between
+            from props import C08
+            touched = [n for pl, n in C08.mutations(val) if pl == bufname and not (n.get("k") == "AddrOf" and any(n is strip(a) or n is a for a in rx.get("args", [])))]
+            ok = l0.get("method") == "read_u8" and sized and exact and conv and not touched
         except (IndexError, KeyError, TypeError):
             ok = False
     rep.ob("grammar.reader.utf8", ok, DE + "to_utf8", "shape", "to_utf8 must be: u8 length, exactly that many bytes, String::from_utf8")
